@@ -5,7 +5,7 @@ patch=$1; prop=$2; shift 2
 cd /repo || exit 9
 if ! git diff --quiet; then echo "/repo is dirty"; exit 9; fi
 git apply "$patch" || { echo "patch does not apply"; exit 9; }
-cd /verif && timeout 1500 ./bin/vcheck -prop "$prop" "$@" > /tmp/tryseed.$prop.log 2>&1
+cd /verif && VCHECK_EVIDENCE_DIR=/tmp/ev timeout 1500 ./bin/vcheck -prop "$prop" "$@" > /tmp/tryseed.$prop.log 2>&1
 rc=$?
 git -C /repo checkout -- .
 echo "exit=$rc"
